@@ -53,6 +53,11 @@ Proof.
   assert (wf_colls d1) by (eapply wfc_eng_get; eauto).
   destruct g1 as [v| |]; [destruct v|..]; inversion H; subst; assumption.
 Qed.
+Lemma wfc_eng_rename d o n ok d' : wf_colls d -> eng_rename d o n = (ok, d') -> wf_colls d'.
+Proof.
+  intros Hw E. unfold eng_rename in E. destruct (get_entry d o) as [e|] eqn:G; inversion E; subst; [|exact Hw].
+  apply wfc_put_entry; [destruct (e_exp e); eauto 8 with wfc|]. eapply wfc_lookup; eauto.
+Qed.
 Lemma wfc_del_loop : forall args d n m d', wf_colls d -> del_loop d args n = (m, d') -> wf_colls d'.
 Proof.
   induction args as [|a args IH]; intros d n m d' Hw H; cbn [del_loop] in H.
@@ -126,8 +131,18 @@ Proof.
   - unfold h_getrange in H1. c_solve.
   - unfold h_setrange in H1. c_solve.
   - unfold h_type in H1. c_solve.
-  - unfold h_rename, eng_rename in H1. c_solve.
-  - unfold h_renamenx, eng_rename in H1. c_solve.
+  - unfold h_rename in H1. destruct (negb (nparts parts =? 3)); [inversion H1; subst; exact Hw|].
+    destruct (nth_arg parts 1); [|inversion H1; subst; exact Hw].
+    destruct (nth_arg parts 2); [|inversion H1; subst; exact Hw].
+    destruct (eng_rename d b b0) as [ok d1] eqn:E. pose proof (wfc_eng_rename _ _ _ _ _ Hw E).
+    destruct ok; inversion H1; subst; assumption.
+  - unfold h_renamenx in H1. destruct (negb (nparts parts =? 3)); [inversion H1; subst; exact Hw|].
+    destruct (nth_arg parts 1); [|inversion H1; subst; exact Hw].
+    destruct (nth_arg parts 2); [|inversion H1; subst; exact Hw].
+    destruct (negb (eng_exists now d b)); [inversion H1; subst; exact Hw|].
+    destruct (eng_exists now d b0); [inversion H1; subst; exact Hw|].
+    destruct (eng_rename d b b0) as [ok d1] eqn:E. pose proof (wfc_eng_rename _ _ _ _ _ Hw E).
+    destruct ok; inversion H1; subst; assumption.
   - unfold h_keys in H1. c_solve.
   - unfold h_dbsize in H1. c_solve.
   - unfold h_flushdb in H1. c_solve.
